@@ -915,6 +915,61 @@ impl Connection {
     }
 }
 
+#[cfg(libtw2_verif)]
+impl Connection {
+    /// Verification hook: copy of the connection (scratch buffer not copied).
+    pub fn verif_clone(&self) -> Connection {
+        Connection {
+            state: self.state.clone(),
+            send: self.send,
+            builder: PacketBuilder::new(),
+        }
+    }
+    /// Verification hook: plain-data view of the complete connection state.
+    pub fn verif_view(&self, now: Timestamp) -> crate::verif::ConnView {
+        use crate::verif::*;
+        let (state, state_name) = match self.state {
+            State::Unconnected => (0, "Unconnected"),
+            State::Token(_) => (1, "Token"),
+            State::PendingConnect(_) => (2, "PendingConnect"),
+            State::Connecting(_) => (3, "Connecting"),
+            State::Pending(_) => (4, "Pending"),
+            State::Online(_) => (5, "Online"),
+            State::Disconnected => (6, "Disconnected"),
+        };
+        let packet = |p: &PacketContents| PacketView {
+            num_chunks: p.num_chunks,
+            data: p.data.to_vec(),
+        };
+        ConnView {
+            state: state,
+            state_name: state_name,
+            own_token: self.state.own_token().map(|t| Some(t.0)),
+            their_token: self.state.their_token().map(|t| t.0),
+            online: match self.state {
+                State::Online(ref o) => Some(OnlineView {
+                    ack: o.ack.to_u16(),
+                    sequence: o.sequence.to_u16(),
+                    request_resend: o.request_resend,
+                    packet: packet(&o.packet),
+                    packet_nonvital: packet(&o.packet_nonvital),
+                    resend_queue: o
+                        .resend_queue
+                        .iter()
+                        .map(|r| ResendView {
+                            next_send: rel(r.next_send, now),
+                            sequence: r.sequence.to_u16(),
+                            data: r.data.to_vec(),
+                        })
+                        .collect(),
+                }),
+                _ => None,
+            },
+            send: rel(self.send, now),
+        }
+    }
+}
+
 #[cfg(test)]
 mod test {
     use super::Callback;
